@@ -202,3 +202,18 @@ Theorem C18_decode_two_calls_disjoint : forall E n0 t w,
   forall l, In l (labels r1) -> In l (labels r2) -> l < n0.
 Proof. exact unpack_twice_disjoint. Qed.
 Print Assumptions C18_decode_two_calls_disjoint.
+
+(* Absent keys: a field with default_factory=list whose key is missing from the input (TAbsent) gets a new list
+   from the supply of that call -- covered by C18_decode_fresh / C18_decode_all_fresh (anyref is empty there)
+   and C18_decode_two_calls_disjoint; Literal positions (TLit) are atoms packed by a helper that is not the
+   bare name. *)
+Definition env_dflt : env :=
+  {| e_ct := fun _ => {| c_sup := false; c_nc := None; c_fields := [TSeq OList TAtom; TAbsent (DFresh KList); TAbsent DAtom; TLit] |};
+     e_fmt := None; e_lp := fun _ => false |}.
+Example C18_nonvacuous_defaults :
+  let w := VMap KDict 0 [(VAtom 0%Z, VSeq KList 1 [VAtom 1%Z]); (VAtom 0%Z, VNone); (VAtom 0%Z, VNone); (VAtom 0%Z, VAtom 2%Z)] in
+  wconforms env_dflt w (TDC 0) = true /\
+  unpack_top env_dflt (TDC 0) w 2 = (VObj 0 2 [VSeq KList 3 [VAtom 1%Z]; VSeq KList 4 []; VAtom 0%Z; VAtom 2%Z], 5) /\
+  fst (unpack_top env_dflt (TDC 0) w 5) = VObj 0 5 [VSeq KList 6 [VAtom 1%Z]; VSeq KList 7 []; VAtom 0%Z; VAtom 2%Z] /\
+  fst (pack_top env0 None [OList] (TSeq OList TLit) (VSeq KList 0 [VAtom 1%Z]) 1) = VSeq KList 1 [VAtom 1%Z].
+Proof. vm_compute. repeat split; reflexivity. Qed.
